@@ -184,6 +184,39 @@ def run(prog, rep, tier='quick'):
         # separately typed levup carry the obligation; only the absence of conflicts is required here
         if not nconf:
             rep.proved('covariance', f.qname, 'rc2poly first step-up [complex]', 'levup(a, kr[1], e[0]) is charge-consistent', loc(f.mod, f.node))
+    # rlevinson (step-down + autocorrelation recursion): the polynomials shrink and the lag vector grows inside the loops, so the
+    # function is typed on bounded instances -- concrete orders, loops executed iteration by iteration -- with 2-D charges
+    # for the matrix U.  A conjugate in the wrong place is the same statement at every order: it shows at order 3.
+    rl = prog.func('levinson', 'rlevinson')
+    n_rl = 0
+    for order in (3, 4):
+        itp = C.new_interp(prog, d4=True)
+        itp.unroll = True
+        v, itp = C.run_function(prog, 'levinson', 'rlevinson', [arr(Aff(order + 1), 1, 0, True), scal(0, False, s=1)], {}, itp=itp)
+        ctx = 'order %d' % order
+        if blocked(rep, 'covariance', rl.qname, ctx, itp):
+            continue
+        n_rl += 1
+        nconf = report_q(rep, 'covariance', itp, {rl.qname, ld.qname}, 'rlevinson,' + ctx, seen)
+        if isinstance(v, Tup) and len(v.items) == 4:
+            where_rl = loc(rl.mod, rl.node)
+            check_q(rep, 'covariance', rl.qname, ctx, 'R', v.items[0], Q.lin(1, Aff(0)), where_rl, nconf)
+            check_q(rep, 'covariance', rl.qname, ctx, 'kr', v.items[2], Q.lin(1, Aff(1)), where_rl, nconf)
+            check_q(rep, 'covariance', rl.qname, ctx, 'e', v.items[3], Aff(0), where_rl, nconf)
+            U = v.items[1]
+            uq = U.q if isinstance(U, Num) else None
+            if Q.is_cols(uq):
+                cand = Q.lin2(1, -1, Aff(0))
+                if len(uq[1]) == order and Q.cols_consistent(uq, cand):
+                    rep.proved('covariance', rl.qname, 'U [%s]' % ctx, 'entry (i,j) has charge i-j in all %d stored columns' % len(uq[1]), where_rl)
+                else:
+                    rep.violation('covariance', rl.qname, 'U [%s]' % ctx, 'the prediction-polynomial matrix has column charges %s; required '
+                                  'i-j (conjugated, reversed polynomial of order j in column j)' % Q.show(uq), where_rl)
+            elif not nconf:
+                rep.undecided('covariance', rl.qname, 'U [%s]' % ctx, 'charges of U not derivable (%s)' % Q.show(uq), where_rl)
+        elif not nconf:
+            rep.undecided('covariance', rl.qname, ctx, 'no (R, U, kr, e) returned', loc(rl.mod, rl.node))
+    rep.floor('rlevinson instances typed', n_rl, 2)
     # ---------------- wiring
     n_w = 0
     levq = 'levinson.LEVINSON'
